@@ -457,6 +457,12 @@ impl<'a> QrPayload<'a, &'a [u8]> {
         // Read the fixed fields in the same order (and LSB-first bit order) as
         // `emit_all_bits` writes them.
         let version = reader.read(VERSION_FIELD_LENGTH_IN_BITS)? as u8;
+        // A version other than 0 is not a v1 payload but some future format whose
+        // layout is unknown (the manual pairing code parser likewise refuses the
+        // leading digits that indicate a future version).
+        if version != 0 {
+            return Err(ErrorCode::InvalidData.into());
+        }
         let vid = reader.read(VENDOR_IDFIELD_LENGTH_IN_BITS)? as u16;
         let pid = reader.read(PRODUCT_IDFIELD_LENGTH_IN_BITS)? as u16;
         let comm_flow =
@@ -1451,6 +1457,14 @@ mod tests {
         assert_eq!(payload.passcode(), 34567890);
         assert_eq!(payload.serial_no(), "");
         assert!(payload.optional_data().is_empty());
+    }
+
+    #[test]
+    fn parse_qr_rejects_future_version() {
+        // `MT:Y.K9042C00KA0648G00` (version 0) with the version field set to 5.
+        let mut buf = [0; 128];
+        assert!(QrPayload::parse("MT:Y.K9042C00KA0648G00", &mut buf).is_ok());
+        assert!(QrPayload::parse("MT:10L9042C00KA0648G00", &mut buf).is_err());
     }
 
     #[test]
